@@ -12,9 +12,14 @@ applied to /repo): the key of a failure is the key of the single repair under wh
 defect -> one key, e.g. ``nested:undo-recorded-in-enclosing-context``), or - when no repair explains it - the structural
 rendering of the minimal history with coarse operation kinds (e.g. ``W[bounds,W[objective_direction]!]``).
 """
+import hashlib
 import json
 import multiprocessing
+import os
 import random
+import subprocess
+import sys
+import tempfile
 import time
 import warnings
 
@@ -118,20 +123,29 @@ def random_prog(rng, ops, max_ops, max_depth=3):
 
 # ---------------------------------------------------------------------------------------------------------------------
 def _cases(tier, seed):
-    """-> list of (family, case); deterministic for (tier, seed)"""
+    """-> list of (family, case).  Families depth1 / depth2 / depth3 do not depend on the seed (fixed models, exhaustive
+    over the stated alphabet and shapes); random1 (depth 1 on seeded random models) and random (seeded histories) do.
+    The enumerated part of thorough contains the enumerated part of quick."""
     rng = random.Random(seed * 7919 + (0 if tier == "quick" else 1))
     cases = []
     single_models = ["toy", "toy-min2", "chain", "chain-rev", "toy-group", "toy-fixed", "toy-user"]
     rnd_recipes = [_random_recipe(rng) for _ in range(3 if tier == "quick" else 8)]
     # exhaustive depth 1, full alphabet, all shapes
-    for rec in [RECIPES[n] for n in single_models] + rnd_recipes:
+    for n in single_models:
+        rec = RECIPES[n]
         full, core = _alphabet(rec)
         for a in full:
             for p in single_shapes(a):
                 cases.append(("depth1", {"model": rec, "prog": p}))
+    for rec in rnd_recipes:
+        full, core = _alphabet(rec)
+        for a in full:
+            for i, p in enumerate(single_shapes(a)):
+                if tier != "quick" or i in (0, 3, 5, 7):
+                    cases.append(("random1", {"model": rec, "prog": p}))
     # exhaustive depth 2: (model, alphabet, shapes)
     if tier == "quick":
-        plan = [("toy", "core", range(8)), ("chain", "core", (0, 3))]
+        plan = [("toy", "core", (0, 2, 3, 4, 6, 7)), ("chain", "core", (2,))]
     else:
         plan = [("toy", "full", range(8)), ("chain", "full", range(8)), ("toy-min2", "core", range(8)),
                 ("toy-user", "core", range(8)), ("toy-fixed", "core", (0, 3, 4, 6))]
@@ -155,7 +169,7 @@ def _cases(tier, seed):
                     for p in triple_shapes(a, b, c):
                         cases.append(("depth3", {"model": rec, "prog": p}))
     # seeded random histories
-    n_random = 5000 if tier == "quick" else 100000
+    n_random = 3000 if tier == "quick" else 100000
     pool = [RECIPES[n] for n in ("toy", "toy-min2", "chain", "chain-rev", "toy-fixed", "toy-user")] + rnd_recipes
     for _ in range(n_random):
         rec = rng.choice(pool)
@@ -186,6 +200,7 @@ def _reduced(core):
 
 # ---------------------------------------------------------------------------------------------------------------------
 _RUNNER = None
+DETERMINISTIC = ("depth1", "depth2", "depth3")  # families that do not depend on the seed
 
 
 def _work(chunk, progress=None):
@@ -215,14 +230,9 @@ def _work(chunk, progress=None):
             out["failing"] += 1
         for rendering, core, text, why in found:
             cj = json.dumps(core, sort_keys=True)
-            k = (rendering, why)
-            cand = (len(cj), cj, text)
-            if k not in agg:
-                agg[k] = [cand, 0]
-            agg[k][1] += 1
-            if cand < agg[k][0]:
-                agg[k][0] = cand
-    out["failures"] = [(k[0], json.loads(v[0][1]), v[0][2], k[1], v[1]) for k, v in agg.items()]
+            a = agg.setdefault(cj, [rendering, text, why, 0, 0])
+            a[3 if fam in DETERMINISTIC else 4] += 1
+    out["failures"] = [(cj, v[0], v[1], v[2], v[3], v[4]) for cj, v in agg.items()]
     out["shrink_exec"] = _RUNNER.executions - e0 - out["n"] - out["invalid"]
     return out
 
@@ -253,6 +263,7 @@ def _pool_map(chunks, case_timeout=120.0):
     every worker publishes the index of the case it is running, so a worker that dies (or is killed after
     `case_timeout` seconds in one case) costs exactly that case - reported as a failure - and the rest of its chunk is
     queued again."""
+    import queue
     ctx = multiprocessing.get_context("fork")
     n = min(PROCESSES, max(1, len(chunks)))
     tasks, results, stop = ctx.Queue(), ctx.Queue(), ctx.Event()
@@ -273,7 +284,6 @@ def _pool_map(chunks, case_timeout=120.0):
     for slot in range(n):
         spawn(slot)
     out, casualties = [], []
-    import queue
     try:
         while pending:
             try:
@@ -317,45 +327,73 @@ def _pool_map(chunks, case_timeout=120.0):
     return out, casualties
 
 
-def _group(found):
-    """found: [(rendering of the minimal history, minimal case, failure text, explaining repairs | None, count)]
-    -> failures.  One defect -> one key: a minimal history that passes under exactly one candidate repair of
-    bcc.context_c03.REPAIRS is a witness of that defect; one that needs several repairs is counted with each of them
-    (and gets a key of its own only if one of them has no witness of its own in this run); one that no repair explains
-    keeps its rendering as key."""
-    single, multi, unknown = {}, [], {}
+_NAMES = None
 
-    def put(table, key, core, rendering, text, n):
-        cj = json.dumps(core, sort_keys=True)
-        cand = (len(C.ops_of(core["prog"])), C.depth_of(core["prog"]), len(cj), cj, rendering, text)
-        g = table.setdefault(key, {"best": cand, "count": 0, "cores": set(), "also": 0})
-        g["count"] += n
-        g["cores"].add(rendering)
-        if cand < g["best"]:
-            g["best"] = cand
-    for rendering, core, text, why, n in found:
-        if why is None:
-            put(unknown, rendering, core, rendering, text, n)
-        elif len(why) == 1:
-            put(single, why[0], core, rendering, text, n)
-        else:
-            multi.append((rendering, core, text, why, n))
-    for rendering, core, text, why, n in multi:
-        if all(k in single for k in why):
-            for k in why:
-                single[k]["also"] += n
-        else:
-            put(single, "+".join(why), core, rendering, text, n)
+
+def witness_id(core):
+    """stable, exact, seed-independent identifier of a minimal failing history: its rendering, the model it runs on and
+    a hash of the canonical JSON of the whole case (recipe, operations with all arguments, nesting, exit modes)"""
+    global _NAMES
+    if _NAMES is None:
+        _NAMES = {json.dumps(v, sort_keys=True): k for k, v in RECIPES.items()}
+    cj = json.dumps(core, sort_keys=True)
+    name = _NAMES.get(json.dumps(core["model"], sort_keys=True), "random-model")
+    return f"{C.render(core['prog'])}@{name}#{hashlib.sha1(cj.encode()).hexdigest()[:10]}"
+
+
+def _class_of(rendering, why):
+    if why is None:
+        return rendering  # no candidate repair explains it: a class of its own, named after the minimal history
+    return "+".join(why)
+
+
+def _group(found):
+    """found: {canonical JSON of a minimal failing history: [rendering, failure text, explaining repairs | None,
+    number of failing histories of the seed-independent families that reduce to it, same for the seeded families]}.
+
+    * every minimal history that comes out of the seed-independent families (exhaustive depth 1 / 2 / 3 on the fixed
+      models) is reported on its own: {"key": class, "witness": exact id};
+    * a minimal history that only the seeded families produce is reported with the id of the deterministic witness if
+      it *is* one; as "witness": "random:<class>" if its class (each of its classes, when several repairs are needed) has
+      deterministic witnesses in this run; and on its own otherwise."""
+    det = {cj: v for cj, v in found.items() if v[3] > 0}
+    rnd = {cj: v for cj, v in found.items() if v[3] == 0}
     failures = []
-    for table in (single, unknown):
-        for key in sorted(table):
-            g = table[key]
-            cj, rendering, text = g["best"][3], g["best"][4], g["best"][5]
-            extra = f"; {g['also']} more need this and another repair" if g["also"] else ""
-            failures.append({"key": key,
-                             "failure": f"{text}  [minimal history {rendering}; {g['count']} failing histories reduce to "
-                                        f"{len(g['cores'])} distinct minimal histories of this defect{extra}]",
-                             "replay": json.loads(cj)})
+    open_classes = set()
+    for cj in sorted(det, key=lambda c: (_class_of(det[c][0], det[c][2]), len(c), c)):
+        rendering, text, why, n_det, n_rnd = det[cj]
+        cls = _class_of(rendering, why)
+        open_classes.add(cls)
+        core = json.loads(cj)
+        failures.append({"key": cls, "witness": witness_id(core),
+                         "failure": f"{text}  [{n_det} enumerated and {n_rnd} random histories reduce to this minimal history]",
+                         "replay": core})
+    members = set(open_classes)
+    for c in open_classes:
+        members.update(c.split("+"))
+    by_class = {}
+    for cj in sorted(rnd, key=lambda c: (len(c), c)):
+        rendering, text, why, n_det, n_rnd = rnd[cj]
+        cls = _class_of(rendering, why)
+        core = json.loads(cj)
+        if cls in open_classes:
+            targets = [cls]
+        elif why is not None and all(k in members for k in why):
+            targets = list(why)
+        else:
+            failures.append({"key": cls, "witness": witness_id(core),
+                             "failure": f"{text}  [{n_rnd} random histories reduce to this minimal history]", "replay": core})
+            continue
+        for t in targets:
+            g = by_class.setdefault(t, {"core": core, "text": text, "count": 0, "distinct": 0})
+            g["count"] += n_rnd
+            g["distinct"] += 1
+    for cls in sorted(by_class):
+        g = by_class[cls]
+        failures.append({"key": cls, "witness": "random:" + cls,
+                         "failure": f"{g['text']}  [{g['count']} random histories reduce to {g['distinct']} minimal histories "
+                                    f"of this class that the enumerated part does not contain; smallest one attached]",
+                         "replay": g["core"]})
     return failures
 
 
@@ -379,7 +417,13 @@ def _evaluate(cases, tier="quick"):
     for r in results:
         for k, v in r["by_family"].items():
             by_family[k] = by_family.get(k, 0) + v
-    failures = _group([f for r in results for f in r["failures"]])
+    found = {}
+    for r in results:
+        for cj, rendering, text, why, n_det, n_rnd in r["failures"]:
+            a = found.setdefault(cj, [rendering, text, why, 0, 0])
+            a[3] += n_det
+            a[4] += n_rnd
+    failures = _group(found)
     crashes = {}
     for (idx, fam, case), why in casualties[:12]:
         kind = "crash:" if "killed" in why else "hang:"
@@ -390,9 +434,10 @@ def _evaluate(cases, tier="quick"):
             crashes[key] = ((len(cj), cj), why)
     for key in sorted(crashes):
         (_, cj), why = crashes[key]
-        failures.append({"key": key, "failure": "the history " + why, "replay": json.loads(cj)})
+        core = json.loads(cj)
+        failures.append({"key": key, "witness": witness_id(core), "failure": "the history " + why, "replay": core})
     for e in sorted(set(harness_errors)):
-        failures.append({"key": "harness:error", "failure": e, "replay": {}})
+        failures.append({"key": "harness:error", "witness": "harness:error", "failure": e, "replay": {}})
     stats = {"evaluations": sum(r["n"] for r in results), "nontrivial": sum(r["nontrivial"] for r in results),
              "by_family": by_family, "raised": sum(r["raised"] for r in results),
              "shrink_exec": sum(r["shrink_exec"] for r in results), "failing": sum(r["failing"] for r in results),
@@ -401,7 +446,7 @@ def _evaluate(cases, tier="quick"):
     return stats, failures
 
 
-def run(tier: str, seed: int) -> dict:
+def _run(tier, seed):
     import resource
     t0 = time.time()
     cpu0 = resource.getrusage(resource.RUSAGE_CHILDREN)
@@ -413,8 +458,9 @@ def run(tier: str, seed: int) -> dict:
         "rule": "a case = (model recipe, nested-with program over the operation alphabet of bcc.context_c03); all cases are "
                 "distinct as JSON; non-trivial = in at least one block the model state just before __exit__ differed from "
                 "the state at entry (there was something to restore). The depth1/depth2(/depth3) families are exhaustive "
-                "over the stated alphabets and shapes, 'random' are seeded histories of 2-5 operations in up to 3 nested "
-                "blocks. Histories that give two solver objects one name are discarded (not counted)",
+                "over the stated alphabets and shapes on the fixed models and do not depend on the seed; 'random1' (depth 1 "
+                "on seeded random models) and 'random' (seeded histories of 2-5 operations in up to 3 nested blocks) do. "
+                "Histories that give two solver objects one name are discarded (not counted)",
         "bounds": {"tier": tier, "seed": seed, "by_family": st["by_family"],
                    "models": "toy (5 reactions, 4 metabolites, 3 genes, 2 compartments) and variants (min direction, two "
                              "objective terms, forced flux, group, pre-existing fixed-objective constraint / knocked-out "
@@ -426,9 +472,10 @@ def run(tier: str, seed: int) -> dict:
                                     "3 (thorough, reduced alphabet), 2-5 random",
                    "cases_with_a_raising_operation": st["raised"],
                    "failing_histories": st["failing"],
-                   "extra_executions_for_shrinking": st["shrink_exec"],
+                   "extra_executions_for_shrinking_and_attribution": st["shrink_exec"],
                    "discarded_histories_with_two_solver_objects_of_one_name": st["invalid"],
                    "blocks_entered_with_broken_cross_references_not_compared": st["unjudged"],
+                   "PYTHONHASHSEED": os.environ.get("PYTHONHASHSEED"),
                    "seconds": round(time.time() - t0, 1),
                    "cpu_seconds_of_workers": round(sum(getattr(cpu1, f) - getattr(cpu0, f)
                                                        for f in ("ru_utime", "ru_stime")), 1)},
@@ -486,8 +533,50 @@ def _shrink_casualty(case, marker, budget=40):
     return cur
 
 
+# ---------------------------------------------------------------------------------------------------------------------
+# Which spelling of an order-dependent defect fails follows the iteration order of sets of strings (gene identifiers in
+# `GPR.genes`), i.e. PYTHONHASHSEED.  For results that are identical from run to run the work is done by an interpreter
+# started with PYTHONHASHSEED=0.
+def _reexec(args, payload=None):
+    root = os.path.dirname(os.path.dirname(os.path.dirname(os.path.abspath(__file__))))
+    fd, path = tempfile.mkstemp(prefix="c03_", suffix=".json", dir="/var/tmp")
+    os.close(fd)
+    try:
+        if payload is not None:
+            with open(path, "w") as fh:
+                json.dump(payload, fh)
+        env = dict(os.environ, PYTHONHASHSEED="0")
+        proc = subprocess.run([sys.executable, "-m", "bcc.drivers.C03"] + [str(a) for a in args] + [path], cwd=root, env=env,
+                              stdout=subprocess.DEVNULL, stderr=subprocess.PIPE, text=True)
+        if proc.returncode != 0:
+            raise RuntimeError("C03 child interpreter failed: " + proc.stderr[-2000:])
+        with open(path) as fh:
+            return json.load(fh)
+    finally:
+        if os.path.exists(path):
+            os.remove(path)
+
+
+def run(tier: str, seed: int) -> dict:
+    if os.environ.get("PYTHONHASHSEED") == "0":
+        return _run(tier, seed)
+    return _reexec(["run", tier, seed])
+
+
 def replay(payload_replay: dict):
     """Re-run one recorded case against the current tree; return the failure text, or None if it passes."""
     if "prog" not in payload_replay:
         return None
-    return _execute_in_child(payload_replay)
+    if os.environ.get("PYTHONHASHSEED") == "0":
+        return _execute_in_child(payload_replay)
+    return _reexec(["replay"], payload_replay)["failure"]
+
+
+if __name__ == "__main__":
+    if sys.argv[1] == "run":
+        res = _run(sys.argv[2], int(sys.argv[3]))
+    else:
+        with open(sys.argv[-1]) as fh:
+            res = {"failure": _execute_in_child(json.load(fh))}
+    with open(sys.argv[-1], "w") as fh:
+        json.dump(res, fh)
